@@ -31,16 +31,30 @@ NewSeq(s, e) ==
 Lo(s, e)  == VLo(Target(s, e), e.field)
 LenOld(s, e) == Len(OldSeq(s, e))
 
+(* a sub-view field[vlo:vhi] denotes the Python sub-list old[A:B]; requests   *)
+(* made through it use indices relative to it                                 *)
+ViewA(s, e) == NormStart(LenOld(s, e), Lo(s, e), e.vlo)
+ViewB(s, e) == Max(ViewA(s, e), NormStop(LenOld(s, e), Lo(s, e), e.vhi))
+ViewL(s, e) == SubSeq(OldSeq(s, e), ViewA(s, e) + 1, ViewB(s, e))
+InView(s, e, L2) == Splice(OldSeq(s, e), ViewA(s, e), ViewB(s, e), L2)
+
 (* the abstract result the request denotes, by Python container semantics   *)
 Expected(s, e) ==
-  CASE e.form = "slice" -> PutSlice(OldSeq(s, e), Lo(s, e), e.start, e.stop, e.newS)
+  CASE e.form = "slice" /\ e.isView -> InView(s, e, PutSlice(ViewL(s, e), 0, e.start, e.stop, e.newS))
+    [] e.form = "one" /\ e.isView   -> InView(s, e, PutOne(ViewL(s, e), 0, e.idx, e.newS[1]))
+    [] e.form = "del" /\ e.isView   -> InView(s, e, DelOne(ViewL(s, e), 0, e.idx))
+    [] e.form = "slice" -> PutSlice(OldSeq(s, e), Lo(s, e), e.start, e.stop, e.newS)
     [] e.form = "one"   -> PutOne(OldSeq(s, e), Lo(s, e), e.idx, e.newS[1])
     [] e.form = "del"   -> DelOne(OldSeq(s, e), Lo(s, e), e.idx)
     [] e.form = "opt"   -> e.newS          \* single-valued field: the field becomes exactly the new value
     [] OTHER -> <<>>
 
-IndexErr(s, e)  == e.form \in {"one", "del"} /\ NormIndex(LenOld(s, e), Lo(s, e), e.idx) = -1
-InvertedReq(s, e) == e.form = "slice" /\ Inverted(LenOld(s, e), Lo(s, e), e.start, e.stop)
+IndexErr(s, e)  == e.form \in {"one", "del"} /\
+                   (IF e.isView THEN NormIndex(Len(ViewL(s, e)), 0, e.idx) = -1
+                    ELSE NormIndex(LenOld(s, e), Lo(s, e), e.idx) = -1)
+InvertedReq(s, e) == e.form = "slice" /\
+                     (IF e.isView THEN Inverted(Len(ViewL(s, e)), 0, e.start, e.stop)
+                      ELSE Inverted(LenOld(s, e), Lo(s, e), e.start, e.stop))
 WellFormed(s, e) == ~IndexErr(s, e) /\ ~InvertedReq(s, e)
 
 BelowMin(s, e) == WellFormed(s, e) /\ Len(Expected(s, e)) < MinLen(TKind(s, e), e.field)
@@ -49,6 +63,29 @@ BelowMin(s, e) == WellFormed(s, e) /\ Len(Expected(s, e)) < MinLen(TKind(s, e), 
 (* either normalisation on or the request respects the grammar's minimum     *)
 (* lengths (the documentation allows temporarily invalid nodes otherwise)    *)
 SyncDomain(s, e) == Sync(s) /\ e.opts.pars # "False" /\ e.expValid /\ ~BelowMin(s, e)
+
+(* arglike ordering (d07 "you can't break syntax ordering rules"): positional   *)
+(* may not follow keyword or **, * may not follow **                           *)
+ArgCat(x) == IF Kind(x) = "keyword" THEN (IF FieldSeq(x, "arg") = <<0>> THEN "dstar" ELSE "kw")
+             ELSE IF Kind(x) = "Starred" THEN "star" ELSE "pos"
+ArglikeOrderOk(seq) ==
+  \A i \in 1..Len(seq), j \in 1..Len(seq) : i < j =>
+     /\ ~(ArgCat(seq[j][1]) = "pos" /\ ArgCat(seq[i][1]) \in {"kw", "dstar"})
+     /\ ~(ArgCat(seq[j][1]) = "star" /\ ArgCat(seq[i][1]) = "dstar")
+OrderRuleBroken(s, e) == e.field \in {"_args", "_bases"} /\ WellFormed(s, e) /\ ~ArglikeOrderOk(Expected(s, e))
+
+(* Compare slices (d06): operators strictly left of the slice and strictly     *)
+(* right of it are kept; which operator adjoins the slice is op_side's choice  *)
+OpsLaw(s, e) ==
+  LET o  == FieldSeq(Target(s, e), "ops")
+      o2 == FieldSeq(NodeAt(e.post.liveS, e.path), "ops")
+      n  == LenOld(s, e)
+      s0 == IF e.form = "slice" THEN NormStart(n, 0, e.start) ELSE NormIndex(n, 0, e.idx)
+      t0 == IF e.form = "slice" THEN NormStop(n, 0, e.stop) ELSE NormIndex(n, 0, e.idx) + 1
+      keepR == IF n - 1 - t0 > 0 THEN n - 1 - t0 ELSE 0
+  IN /\ Len(o2) = Len(Expected(s, e)) - 1
+     /\ \A i \in 1..(s0 - 1) : i <= Len(o2) /\ i <= Len(o) /\ o2[i] = o[i]
+     /\ \A i \in 1..keepR : Len(o2) - i + 1 >= 1 /\ o2[Len(o2) - i + 1] = o[Len(o) - i + 1]
 
 (* named action DeleteDependent / grammar-forced companions: fields that the   *)
 (* grammar ties to the edited one (`raise X from Y` needs X, `except T as n`  *)
@@ -72,6 +109,8 @@ EditOk(s, e) ==
                                                VReal(TKind(s, e), e.field)
                                                  \cup Dependent(TKind(s, e), e.field, Deleting(e)))) }
         ELSE {})
+  \cup (IF e.law /\ e.expValid /\ WellFormed(s, e) /\ ~BelowMin(s, e) /\ TKind(s, e) = "Compare" /\ e.field = "_all"
+        THEN {Cl("OpsLaw", OpsLaw(s, e))} ELSE {})
   \cup (IF e.law /\ e.expValid /\ e.expS # 0 /\ Sync(s) THEN {Cl("OracleAgree", t.liveS = e.expS)} ELSE {})
   \cup (IF e.law /\ ~WellFormed(s, e) THEN {Cl("IllFormedAccepted", FALSE)} ELSE {})
 
@@ -87,6 +126,7 @@ RefuseAllowed(s, e) ==
   \/ ~e.expCompiles            \* parses, but CPython's compiler rejects the result (e.g. `x = *a`)
   \/ ~WellFormed(s, e)          \* IndexError like a list / named deviation RefuseInverted
   \/ BelowMin(s, e)
+  \/ OrderRuleBroken(s, e)      \* arglike syntax ordering rules
   \/ CutPieceBelowMin(s, e)    \* norm_get: the *returned* slice would be shorter than the grammar allows
   \/ e.documented               \* harness-classified documented refusal (README TODO / ordering rules), see DESIGN 4-C03
 
@@ -113,7 +153,8 @@ ArgsInterleaved(s, e) ==
 Shape(s, e) ==
   IF e.form = "slice" THEN
      (IF ~WellFormed(s, e) THEN "illformed"
-      ELSE IF NormStart(LenOld(s, e), Lo(s, e), e.start) = NormStop(LenOld(s, e), Lo(s, e), e.stop)
+      ELSE IF (IF e.isView THEN NormStart(Len(ViewL(s, e)), 0, e.start) = NormStop(Len(ViewL(s, e)), 0, e.stop)
+               ELSE NormStart(LenOld(s, e), Lo(s, e), e.start) = NormStop(LenOld(s, e), Lo(s, e), e.stop))
            THEN (IF e.newS = <<>> THEN "noop" ELSE "insert")
       ELSE IF e.newS = <<>> THEN "delete" ELSE "replace")
   ELSE IF e.form = "opt" THEN (IF Deleting(e) THEN "delete" ELSE "set")
@@ -130,4 +171,7 @@ EditClass(s, e) == TKind(s, e) \o "." \o e.field \o "/" \o Shape(s, e)
                      \o (IF ArgsInterleaved(s, e) THEN "/interleaved" ELSE "")
                      \o (IF InPattern(s.liveS, e.path) THEN "/in-pattern" ELSE "")
                      \o (IF e.codePar THEN "/code-parenthesized" ELSE "")
+                     \o (IF e.isView THEN "/subview" ELSE "")
+                     \o (IF e.form = "slice" /\ ~e.isView /\ NormStart(LenOld(s, e), Lo(s, e), e.start) = 0
+                           /\ e.codePar0 THEN "/at0-first-parenthesized" ELSE "")
 =============================================================================
